@@ -428,4 +428,519 @@ Section HeapProofs.
       + intros E; inversion E. lia.
   Qed.
 
+  (** ** bubble_down *)
+  Section BubbleDown.
+    Variable len lo : nat.
+    Variable x : entry.                (* the entry that is bubbled down (kept in cell [len]) *)
+    Hypothesis Hx : good (ekey x).
+    Hypothesis Hxhd : ehd x <> None.
+
+    Record BD (es : cells) (pos : nat) : Prop := {
+      bd_pos : 1 <= lo /\ lo <= pos /\ pos < len;
+      bd_len : len < length es;
+      bd_x : cget es len = Some x;
+      bd_ok : forall i, 1 <= i < len -> cell_ok es i;
+      bd_a : forall i e p, 1 <= i < len -> lo <= i / 2 -> i <> pos -> i / 2 <> pos ->
+             cget es i = Some e -> cget es (i / 2) = Some p -> le (ekey p) (ekey e);
+      bd_b : pos = lo \/ (lo <= pos / 2 /\ forall p, cget es (pos / 2) = Some p -> le (ekey p) (ekey x));
+      bd_c : pos = lo \/ (forall i e p, 1 <= i < len -> i / 2 = pos ->
+             cget es i = Some e -> cget es (pos / 2) = Some p -> le (ekey p) (ekey e))
+    }.
+
+    Lemma bd_good : forall es pos i e, BD es pos -> 1 <= i < len -> cget es i = Some e -> good (ekey e).
+    Proof.
+      intros es pos i e B Hi Hg. destruct (bd_ok _ _ B i Hi) as (e' & H1 & H2 & _). congruence.
+    Qed.
+
+    Lemma bubble_down_exit : forall f es, bubble_down f es len len = Some es.
+    Proof. intros [|f] es; cbn [Heap.bubble_down]; rewrite Nat.ltb_irrefl; reflexivity. Qed.
+
+    Lemma bd_step : forall es pos, BD es pos ->
+      exists cmp2 e2,
+        (forall f, bubble_down (S f) es len pos =
+                   match cset es pos e2 with Some es' => bubble_down f es' len cmp2 | None => None end) /\
+        cget es cmp2 = Some e2 /\
+        ((cmp2 = len /\ e2 = x /\
+          forall i e, 1 <= i < len -> i / 2 = pos -> cget es i = Some e -> le (ekey x) (ekey e)) \/
+         (pos < cmp2 < len /\ cmp2 / 2 = pos /\ ltb (ekey e2) (ekey x) = true /\
+          forall i e, 1 <= i < len -> i / 2 = pos -> cget es i = Some e -> le (ekey e2) (ekey e))).
+    Proof.
+      intros es pos B. destruct (bd_pos _ _ B) as (Hlo & Hlp & Hpl).
+      pose proof (bd_x _ _ B) as Hgx.
+      assert (Hlt : (pos <? len) = true) by (apply Nat.ltb_lt; lia).
+      assert (Hch : forall i, i / 2 = pos <-> i = 2 * pos \/ i = 2 * pos + 1) by (intros; apply child_iff; lia).
+      assert (Hd1 : (2 * pos) / 2 = pos) by (apply Hch; auto).
+      assert (Hd2 : (2 * pos + 1) / 2 = pos) by (apply Hch; auto).
+      destruct (Nat.ltb_spec (2 * pos) len) as [L1|L1].
+      - destruct (bd_ok _ _ B (2 * pos) ltac:(lia)) as (c1 & Hc1 & Hg1 & _).
+        destruct (Nat.ltb_spec (2 * pos + 1) len) as [L2|L2].
+        + destruct (bd_ok _ _ B (2 * pos + 1) ltac:(lia)) as (c2 & Hc2 & Hg2 & _).
+          destruct (ltb (ekey c1) (ekey x)) eqn:E1.
+          * destruct (ltb (ekey c2) (ekey c1)) eqn:E2.
+            -- exists (2 * pos + 1), c2. split; [|split; [exact Hc2|right]].
+               { intros f. cbn [Heap.bubble_down]. rewrite Hlt.
+                 destruct (Nat.ltb_spec (2 * pos) len); [|lia].
+                 destruct (Nat.ltb_spec (2 * pos + 1) len); [|lia].
+                 rewrite Hc1, Hgx. cbn [obind]. unfold entry_lt. rewrite E1. cbn [obind].
+                 rewrite Hc2, Hc1. cbn [obind]. rewrite E2. cbn [obind]. rewrite Hc2. cbn [obind].
+                 reflexivity. }
+               split; [lia|]. split; [exact Hd2|]. split; [apply lt_trans with (b := ekey c1); auto|].
+               intros i e Hi Hi2 Hge. apply Hch in Hi2. destruct Hi2 as [->| ->].
+               ++ rewrite Hc1 in Hge. inversion Hge; subst e. apply lt_le; auto.
+               ++ rewrite Hc2 in Hge. inversion Hge; subst e. apply le_refl; auto.
+            -- exists (2 * pos), c1. split; [|split; [exact Hc1|right]].
+               { intros f. cbn [Heap.bubble_down]. rewrite Hlt.
+                 destruct (Nat.ltb_spec (2 * pos) len); [|lia].
+                 destruct (Nat.ltb_spec (2 * pos + 1) len); [|lia].
+                 rewrite Hc1, Hgx. cbn [obind]. unfold entry_lt. rewrite E1. cbn [obind].
+                 rewrite Hc2, Hc1. cbn [obind]. rewrite E2. cbn [obind]. rewrite Hc1. cbn [obind].
+                 reflexivity. }
+               split; [lia|]. split; [exact Hd1|]. split; [exact E1|].
+               intros i e Hi Hi2 Hge. apply Hch in Hi2. destruct Hi2 as [->| ->].
+               ++ rewrite Hc1 in Hge. inversion Hge; subst e. apply le_refl; auto.
+               ++ rewrite Hc2 in Hge. inversion Hge; subst e. exact E2.
+          * destruct (ltb (ekey c2) (ekey x)) eqn:E2.
+            -- exists (2 * pos + 1), c2. split; [|split; [exact Hc2|right]].
+               { intros f. cbn [Heap.bubble_down]. rewrite Hlt.
+                 destruct (Nat.ltb_spec (2 * pos) len); [|lia].
+                 destruct (Nat.ltb_spec (2 * pos + 1) len); [|lia].
+                 rewrite Hc1, Hgx. cbn [obind]. unfold entry_lt. rewrite E1. cbn [obind].
+                 rewrite Hc2, Hgx. cbn [obind]. rewrite E2. cbn [obind]. rewrite Hc2. cbn [obind].
+                 reflexivity. }
+               split; [lia|]. split; [exact Hd2|]. split; [exact E2|].
+               intros i e Hi Hi2 Hge. apply Hch in Hi2. destruct Hi2 as [->| ->].
+               ++ rewrite Hc1 in Hge. inversion Hge; subst e. apply lt_le; auto.
+                  apply lt_le_trans with (b := ekey x); auto.
+               ++ rewrite Hc2 in Hge. inversion Hge; subst e. apply le_refl; auto.
+            -- exists len, x. split; [|split; [exact Hgx|left]].
+               { intros f. cbn [Heap.bubble_down]. rewrite Hlt.
+                 destruct (Nat.ltb_spec (2 * pos) len); [|lia].
+                 destruct (Nat.ltb_spec (2 * pos + 1) len); [|lia].
+                 rewrite Hc1, Hgx. cbn [obind]. unfold entry_lt. rewrite E1. cbn [obind].
+                 rewrite Hc2, Hgx. cbn [obind]. rewrite E2. cbn [obind]. rewrite Hgx. cbn [obind].
+                 reflexivity. }
+               split; [reflexivity|]. split; [reflexivity|].
+               intros i e Hi Hi2 Hge. apply Hch in Hi2. destruct Hi2 as [->| ->].
+               ++ rewrite Hc1 in Hge. inversion Hge; subst e. exact E1.
+               ++ rewrite Hc2 in Hge. inversion Hge; subst e. exact E2.
+        + destruct (ltb (ekey c1) (ekey x)) eqn:E1.
+          * exists (2 * pos), c1. split; [|split; [exact Hc1|right]].
+            { intros f. cbn [Heap.bubble_down]. rewrite Hlt.
+              destruct (Nat.ltb_spec (2 * pos) len); [|lia].
+              destruct (Nat.ltb_spec (2 * pos + 1) len); [lia|].
+              rewrite Hc1, Hgx. cbn [obind]. unfold entry_lt. rewrite E1. cbn [obind].
+              rewrite Hc1. cbn [obind]. reflexivity. }
+            split; [lia|]. split; [exact Hd1|]. split; [exact E1|].
+            intros i e Hi Hi2 Hge. apply Hch in Hi2. destruct Hi2 as [->| ->]; [|lia].
+            rewrite Hc1 in Hge. inversion Hge; subst e. apply le_refl; auto.
+          * exists len, x. split; [|split; [exact Hgx|left]].
+            { intros f. cbn [Heap.bubble_down]. rewrite Hlt.
+              destruct (Nat.ltb_spec (2 * pos) len); [|lia].
+              destruct (Nat.ltb_spec (2 * pos + 1) len); [lia|].
+              rewrite Hc1, Hgx. cbn [obind]. unfold entry_lt. rewrite E1. cbn [obind].
+              rewrite Hgx. cbn [obind]. reflexivity. }
+            split; [reflexivity|]. split; [reflexivity|].
+            intros i e Hi Hi2 Hge. apply Hch in Hi2. destruct Hi2 as [->| ->]; [|lia].
+            rewrite Hc1 in Hge. inversion Hge; subst e. exact E1.
+      - exists len, x. split; [|split; [exact Hgx|left]].
+        { intros f. cbn [Heap.bubble_down]. rewrite Hlt.
+          destruct (Nat.ltb_spec (2 * pos) len); [lia|].
+          destruct (Nat.ltb_spec (2 * pos + 1) len); [lia|].
+          cbn [obind]. rewrite Hgx. cbn [obind]. reflexivity. }
+        split; [reflexivity|]. split; [reflexivity|].
+        intros i e Hi Hi2 Hge. apply Hch in Hi2. lia.
+    Qed.
+
+    Lemma bubble_down_spec : forall fuel es pos, len <= fuel + pos -> BD es pos ->
+      exists es', bubble_down fuel es len pos = Some es' /\ length es' = length es /\
+        cget es' len = Some x /\ (forall j, j < lo -> cget es' j = cget es j) /\
+        (forall i, 1 <= i < len -> cell_ok es' i) /\ ordered_from lo es' len /\
+        (forall e, In_cells es' len e <-> e = x \/ exists i, 1 <= i < len /\ i <> pos /\ cget es i = Some e).
+    Proof.
+      induction fuel as [|f IH]; intros es pos Hf B; destruct (bd_pos _ _ B) as (Hlo & Hlp & Hpl); [lia|].
+      destruct (bd_step es pos B) as (cmp2 & e2 & Hrun & Hg2 & Hspec).
+      destruct (cset_some es pos e2) as (es' & Hset).
+      { pose proof (bd_len _ _ B). lia. }
+      rewrite Hrun, Hset.
+      destruct (cset_inv _ _ _ _ Hset) as (_ & Hlen' & G).
+      assert (Gpos : cget es' pos = Some e2) by (rewrite G, Nat.eqb_refl; reflexivity).
+      assert (Gne : forall j, j <> pos -> cget es' j = cget es j).
+      { intros j Hj. rewrite G. destruct (Nat.eqb_spec j pos); [contradiction|reflexivity]. }
+      assert (Hpar : pos / 2 < pos) by (apply div2_lt; lia).
+      destruct Hspec as [(-> & -> & Hch)|(Hc & Hc2 & Hlt & Hch)].
+      - (* x lands at pos *)
+        rewrite bubble_down_exit. exists es'. split; [reflexivity|]. split; [exact Hlen'|].
+        split; [rewrite Gne by lia; apply (bd_x _ _ B)|].
+        split; [intros j Hj; apply Gne; lia|].
+        split.
+        { intros i Hi. destruct (Nat.eq_dec i pos) as [->|Hip].
+          - exists x. rewrite Gpos. auto.
+          - unfold cell_ok. rewrite Gne by auto. apply (bd_ok _ _ B); auto. }
+        split.
+        { intros i e p Hi Hlo2 Hge Hgp.
+          assert (i / 2 < i) by (apply div2_lt; lia).
+          destruct (Nat.eq_dec i pos) as [->|Hip].
+          - rewrite Gpos in Hge. inversion Hge; subst e.
+            rewrite Gne in Hgp by lia.
+            destruct (bd_b _ _ B) as [->|(_ & Hb)]; [lia|]. apply Hb; auto.
+          - rewrite Gne in Hge by auto.
+            destruct (Nat.eq_dec (i / 2) pos) as [E2|E2].
+            + rewrite E2, Gpos in Hgp. inversion Hgp; subst p. apply (Hch i e); auto.
+            + rewrite Gne in Hgp by auto. apply (bd_a _ _ B i e p); auto. }
+        intros e. unfold In_cells. split.
+        + intros (i & Hi & Hge). destruct (Nat.eq_dec i pos) as [->|Hip].
+          * rewrite Gpos in Hge. inversion Hge. auto.
+          * rewrite Gne in Hge by auto. right. exists i; auto.
+        + intros [->|(i & Hi & Hne & Hge)].
+          * exists pos. split; [lia|exact Gpos].
+          * exists i. rewrite Gne by auto. auto.
+      - (* the smaller child moves up, continue at cmp2 *)
+        assert (Hg2good : good (ekey e2)) by (eapply bd_good; eauto; lia).
+        assert (B' : BD es' cmp2).
+        { constructor.
+          - lia.
+          - rewrite Hlen'. apply (bd_len _ _ B).
+          - rewrite Gne by lia. apply (bd_x _ _ B).
+          - intros i Hi. destruct (Nat.eq_dec i pos) as [->|Hip].
+            + destruct (bd_ok _ _ B cmp2 ltac:(lia)) as (e' & He' & Hgood & Hhd).
+              exists e2. rewrite Gpos. split; [reflexivity|]. rewrite Hg2 in He'. inversion He'; subst e'. auto.
+            + unfold cell_ok. rewrite Gne by auto. apply (bd_ok _ _ B); auto.
+          - intros i e p Hi Hlo2 Hne Hne2 Hge Hgp.
+            assert (i / 2 < i) by (apply div2_lt; lia).
+            destruct (Nat.eq_dec i pos) as [->|Hip].
+            + rewrite Gpos in Hge. inversion Hge; subst e.
+              rewrite Gne in Hgp by lia.
+              destruct (bd_c _ _ B) as [->|Hcc]; [lia|].
+              apply (Hcc cmp2 e2 p); auto; lia.
+            + rewrite Gne in Hge by auto.
+              destruct (Nat.eq_dec (i / 2) pos) as [E2|E2].
+              * rewrite E2, Gpos in Hgp. inversion Hgp; subst p. apply (Hch i e); auto.
+              * rewrite Gne in Hgp by auto. apply (bd_a _ _ B i e p); auto.
+          - right. split; [lia|]. intros p Hgp. rewrite Hc2, Gpos in Hgp. inversion Hgp; subst p.
+            apply lt_le; auto.
+          - right. intros i e p Hi Hi2 Hge Hgp.
+            assert (i / 2 < i) by (apply div2_lt; lia).
+            rewrite Hc2, Gpos in Hgp. inversion Hgp; subst p.
+            rewrite Gne in Hge by lia.
+            apply (bd_a _ _ B i e e2); auto; try lia. rewrite Hi2. exact Hg2. }
+        destruct (IH es' cmp2 ltac:(lia) B') as (es2 & Hrun2 & Hlen2 & Hx2 & Hfr2 & Hok2 & Hord2 & Hmem2).
+        exists es2. split; [exact Hrun2|]. split; [congruence|]. split; [exact Hx2|].
+        split; [intros j Hj; rewrite Hfr2 by auto; apply Gne; lia|].
+        split; [exact Hok2|]. split; [exact Hord2|].
+        intros e. rewrite Hmem2. split.
+        + intros [->|(i & Hi & Hne & Hge)]; [auto|]. right.
+          destruct (Nat.eq_dec i pos) as [->|Hip].
+          * rewrite Gpos in Hge. inversion Hge; subst e. exists cmp2. repeat split; auto; lia.
+          * rewrite Gne in Hge by auto. exists i; auto.
+        + intros [->|(i & Hi & Hne & Hge)]; [auto|]. right.
+          destruct (Nat.eq_dec i cmp2) as [->|Hic].
+          * exists pos. rewrite Gpos. repeat split; auto; try lia. congruence.
+          * exists i. rewrite Gne by auto. auto.
+    Qed.
+  End BubbleDown.
+
+  (** ** root *)
+  Lemma ordered_from_0 : forall es len, ordered_from 1 es len -> cget es 0 = Some sentinel ->
+    ordered_from 0 es len.
+  Proof.
+    intros es len H1 H0 i e p Hi _ Hge Hgp.
+    destruct (Nat.eq_dec (i / 2) 0) as [E|E].
+    - rewrite E, H0 in Hgp. inversion Hgp; subst p. apply bot_le.
+    - apply (H1 i e p); auto. lia.
+  Qed.
+
+  Lemma root_le_all : forall es len r, ordered_from 0 es len ->
+    (forall i, 1 <= i < len -> cell_ok es i) -> cget es 1 = Some r ->
+    forall i e, 1 <= i < len -> cget es i = Some e -> le (ekey r) (ekey e).
+  Proof.
+    intros es len r Hord Hok Hr i. induction i as [i IH] using lt_wf_ind. intros e Hi Hge.
+    destruct (Nat.eq_dec i 1) as [->|Hi1].
+    - rewrite Hr in Hge. inversion Hge; subst e.
+      destruct (Hok 1 Hi) as (e' & He' & Hg & _). rewrite Hr in He'. inversion He'; subst e'.
+      apply le_refl; auto.
+    - assert (Hp : 1 <= i / 2 < i).
+      { split; [|apply div2_lt; lia].
+        change 1 with (2 / 2). apply Nat.div_le_mono; lia. }
+      destruct (Hok (i / 2) ltac:(lia)) as (p & Hgp & Hgoodp & _).
+      destruct (Hok i Hi) as (e' & He' & Hgoode & _). rewrite Hge in He'. inversion He'; subst e'.
+      destruct (Hok 1 ltac:(lia)) as (r' & Hr' & Hgoodr & _). rewrite Hr in Hr'. inversion Hr'; subst r'.
+      apply le_trans with (b := ekey p); auto.
+      + apply (IH (i / 2)); auto; lia.
+      + apply (Hord i e p); auto; lia.
+  Qed.
+
+  Lemma root_loop_spec : forall cb fuel h, hlen h <= fuel + 1 -> heap_inv h ->
+    exists h' r, root_loop fuel cb h = Some (h', r) /\ heap_inv h' /\ hsize h' = hsize h /\
+      hlen h' <= hlen h /\
+      (forall e, In_heap h' e -> In_heap h e) /\
+      (forall e, In_heap h e -> In_heap h' e \/ cb e = true) /\
+      ((hlen h' <= 1 /\ r = sentinel) \/
+       (1 < hlen h' /\ cget (entries h') 1 = Some r /\ cb r = false)).
+  Proof.
+    intros cb. induction fuel as [|f IH]; intros h Hf Hinv.
+    - cbn [Heap.root_loop]. destruct (Nat.ltb_spec 1 (hlen h)); [lia|].
+      exists h, sentinel. split; [reflexivity|]. split; [exact Hinv|]. split; [reflexivity|]. split; [lia|]. split; [auto|]. split; [auto|]. left; split; [lia|reflexivity].
+    - cbn [Heap.root_loop]. destruct (Nat.ltb_spec 1 (hlen h)) as [L|L].
+      2:{ exists h, sentinel. split; [reflexivity|]. split; [exact Hinv|]. split; [reflexivity|]. split; [lia|]. split; [auto|]. split; [auto|]. left; split; [lia|reflexivity]. }
+      destruct h as [es len size]. unfold heap_inv in Hinv. cbn [entries hlen hsize] in *.
+      destruct Hinv as (Hl & [(H0 & _)|(H1 & H2 & H3 & H4 & H5)]); [lia|].
+      destruct (H4 1 ltac:(lia)) as (e1 & He1 & Hg1 & Hhd1).
+      rewrite He1. cbn [obind].
+      destruct (cb e1) eqn:Ecb.
+      2:{ exists (mkHeap es len size), e1. split; [reflexivity|].
+          split; [split; [exact Hl|right; auto]|]. split; [reflexivity|]. split; [cbn; lia|].
+          split; [auto|]. split; [auto|]. right. cbn [entries hlen]. auto. }
+      destruct (H4 (len - 1) ltac:(lia)) as (el & Hel & Hgl & Hhdl).
+      rewrite Hel. cbn [obind].
+      destruct (cset_some es 1 el ltac:(lia)) as (es1 & Hset). rewrite Hset. cbn [obind].
+      destruct (cset_inv _ _ _ _ Hset) as (_ & Hlen1 & G).
+      assert (G1 : cget es1 1 = Some el) by (rewrite G; reflexivity).
+      assert (Gne : forall j, j <> 1 -> cget es1 j = cget es j).
+      { intros j Hj. rewrite G. destruct (Nat.eqb_spec j 1); [contradiction|reflexivity]. }
+      assert (Hstep : exists es2, bubble_down (len - 1) es1 (len - 1) 1 = Some es2 /\
+                 heap_inv (mkHeap es2 (len - 1) size) /\
+                 (forall e, In_cells es2 (len - 1) e -> In_cells es len e) /\
+                 (forall e, In_cells es len e -> In_cells es2 (len - 1) e \/ cb e = true)).
+      { destruct (Nat.eq_dec (len - 1) 1) as [E1|E1].
+        - rewrite E1. rewrite bubble_down_exit. exists es1. split; [reflexivity|].
+          split.
+          { split; cbn [entries hlen hsize]; [congruence|]. right.
+            split; [lia|]. split; [lia|]. split; [rewrite Gne by lia; exact H3|].
+            split; [intros i Hi; lia|]. intros i e p Hi; lia. }
+          split.
+          + intros e (i & Hi & _). lia.
+          + intros e (i & Hi & Hge). assert (i = 1) by lia. subst i.
+            rewrite He1 in Hge. inversion Hge; subst e. auto.
+        - assert (B : BD (len - 1) 1 el es1 1).
+          { constructor.
+            - lia.
+            - lia.
+            - rewrite Gne by lia. exact Hel.
+            - intros i Hi. destruct (Nat.eq_dec i 1) as [->|Hi1].
+              + exists el. auto.
+              + unfold cell_ok. rewrite Gne by auto. apply H4. lia.
+            - intros i e p Hi Hlo Hne Hne2 Hge Hgp.
+              rewrite Gne in Hge, Hgp by auto. apply (H5 i e p); auto; lia.
+            - left; reflexivity.
+            - left; reflexivity. }
+          destruct (bubble_down_spec (len - 1) 1 el Hgl Hhdl (len - 1) es1 1 ltac:(lia) B)
+            as (es2 & Hrun & Hlen2 & Hx2 & Hfr2 & Hok2 & Hord2 & Hmem2).
+          exists es2. split; [exact Hrun|].
+          assert (H02 : cget es2 0 = Some sentinel).
+          { rewrite Hfr2 by lia. rewrite Gne by lia. exact H3. }
+          split.
+          { split; cbn [entries hlen hsize]; [congruence|]. right.
+            split; [lia|]. split; [lia|]. split; [exact H02|]. split; [exact Hok2|].
+            apply ordered_from_0; auto. }
+          split.
+          + intros e He. apply Hmem2 in He. destruct He as [->|(i & Hi & Hne & Hge)].
+            * exists (len - 1). split; [lia|exact Hel].
+            * rewrite Gne in Hge by auto. exists i. split; [lia|exact Hge].
+          + intros e (i & Hi & Hge).
+            destruct (Nat.eq_dec i 1) as [->|Hi1].
+            * rewrite He1 in Hge. inversion Hge; subst e. auto.
+            * left. apply Hmem2. destruct (Nat.eq_dec i (len - 1)) as [->|Hil].
+              -- left. congruence.
+              -- right. exists i. rewrite Gne by auto. repeat split; auto; lia. }
+      destruct Hstep as (es2 & Hrun & Hinv2 & Hsub & Hsup).
+      rewrite Hrun. cbn [obind].
+      destruct (IH (mkHeap es2 (len - 1) size) ltac:(cbn; lia) Hinv2)
+        as (h' & r & Hrun' & Hinv' & Hsz' & Hlen' & Hsub' & Hsup' & Hres).
+      exists h', r. split; [exact Hrun'|]. split; [exact Hinv'|]. split; [exact Hsz'|].
+      cbn [hlen] in *. split; [lia|].
+      split; [intros e He; apply Hsub, Hsub'; exact He|].
+      split; [|exact Hres].
+      intros e He. destruct (Hsup e He) as [H|H]; [|auto]. apply Hsup'. exact H.
+  Qed.
+
+  Theorem root_spec : forall cb h, heap_inv h ->
+    exists h' r, root cb h = Some (h', r) /\ heap_inv h' /\ hsize h' = hsize h /\
+      (forall e, In_heap h' e -> In_heap h e) /\
+      (forall e, In_heap h e -> cb e = false -> In_heap h' e) /\
+      (((forall e, In_heap h e -> cb e = true) /\ r = sentinel) \/
+       (In_heap h r /\ cb r = false /\ ehd r <> None /\
+        forall e, In_heap h e -> cb e = false -> le (ekey r) (ekey e))).
+  Proof.
+    intros cb h Hinv. unfold Heap.root.
+    destruct (root_loop_spec cb (hlen h) h ltac:(lia) Hinv)
+      as (h' & r & Hrun & Hinv' & Hsz & Hlen & Hsub & Hsup & Hres).
+    exists h', r. split; [exact Hrun|]. split; [exact Hinv'|]. split; [exact Hsz|].
+    split; [exact Hsub|].
+    assert (Hkeep : forall e, In_heap h e -> cb e = false -> In_heap h' e).
+    { intros e He Hcb. destruct (Hsup e He) as [H|H]; [exact H|congruence]. }
+    split; [exact Hkeep|].
+    destruct Hres as [(Hl & ->)|(Hl & Hr & Hcb)].
+    - left. split; [|reflexivity]. intros e He. destruct (Hsup e He) as [(i & Hi & _)|H]; [lia|exact H].
+    - right. destruct Hinv' as (_ & [(H0 & _)|(H1 & H2 & H3 & H4 & H5)]); [lia|].
+      assert (Hin : In_heap h' r) by (exists 1; split; [lia|exact Hr]).
+      split; [apply Hsub; exact Hin|]. split; [exact Hcb|].
+      split.
+      { destruct (H4 1 ltac:(lia)) as (r' & Hr' & _ & Hhd). rewrite Hr in Hr'. inversion Hr'; subst r'. exact Hhd. }
+      intros e He Hcbe. destruct (Hkeep e He Hcbe) as (i & Hi & Hge).
+      apply (root_le_all (entries h') (hlen h') r H5 H4 Hr i e Hi Hge).
+  Qed.
+
+  (** ** delete_events *)
+  Lemma hd_eqb_spec : forall (a : option N) (hd : N), hd_eqb a (Some hd) = true <-> a = Some hd.
+  Proof.
+    intros [x|] hd; cbn; split; intros H; try discriminate.
+    - apply N.eqb_eq in H. congruence.
+    - inversion H. apply N.eqb_refl.
+  Qed.
+
+  Lemma del_loop_spec : forall hd fuel es len ci, len <= fuel + ci -> 1 <= ci <= len -> len < length es ->
+    (forall i, 1 <= i < len -> cell_ok es i) ->
+    (forall i e, 1 <= i < ci -> cget es i = Some e -> ehd e <> Some hd) ->
+    exists es' len', del_loop fuel es len ci hd = Some (es', len') /\ 1 <= len' <= len /\
+      length es' = length es /\ cget es' 0 = cget es 0 /\
+      (forall i, 1 <= i < len' -> cell_ok es' i) /\
+      (forall e, In_cells es' len' e <-> In_cells es len e /\ ehd e <> Some hd).
+  Proof.
+    intros hd. induction fuel as [|f IH]; intros es len ci Hf Hci Hlen Hok Hpre.
+    - assert (ci = len) by lia. subst ci. cbn [Heap.del_loop]. rewrite Nat.ltb_irrefl.
+      exists es, len. split; [reflexivity|]. split; [lia|]. split; [reflexivity|]. split; [reflexivity|].
+      split; [exact Hok|]. intros e. split.
+      + intros (i & Hi & Hge). split; [exists i; auto|]. apply (Hpre i e); auto.
+      + intros (H & _); exact H.
+    - cbn [Heap.del_loop]. destruct (Nat.ltb_spec ci len) as [L|L].
+      2:{ assert (ci = len) by lia. subst ci.
+          exists es, len. split; [reflexivity|]. split; [lia|]. split; [reflexivity|]. split; [reflexivity|].
+          split; [exact Hok|]. intros e. split.
+          + intros (i & Hi & Hge). split; [exists i; auto|]. apply (Hpre i e); auto.
+          + intros (H & _); exact H. }
+      destruct (Hok ci ltac:(lia)) as (e0 & He0 & _).
+      rewrite He0. cbn [obind].
+      destruct (hd_eqb (ehd e0) (Some hd)) eqn:Ehd.
+      + apply hd_eqb_spec in Ehd.
+        destruct (Hok (len - 1) ltac:(lia)) as (el & Hel & Hgl & Hhdl).
+        rewrite Hel. cbn [obind].
+        destruct (cset_some es ci el ltac:(lia)) as (es1 & Hset). rewrite Hset. cbn [obind].
+        destruct (cset_inv _ _ _ _ Hset) as (_ & Hlen1 & G).
+        assert (Gci : cget es1 ci = Some el) by (rewrite G, Nat.eqb_refl; reflexivity).
+        assert (Gne : forall j, j <> ci -> cget es1 j = cget es j).
+        { intros j Hj. rewrite G. destruct (Nat.eqb_spec j ci); [contradiction|reflexivity]. }
+        destruct (IH es1 (len - 1) ci ltac:(lia) ltac:(lia) ltac:(lia)) as (es' & len' & Hrun & Hl' & Hlen' & H0' & Hok' & Hmem').
+        { intros i Hi. destruct (Nat.eq_dec i ci) as [->|Hic].
+          - exists el. auto.
+          - unfold cell_ok. rewrite Gne by auto. apply Hok. lia. }
+        { intros i e Hi Hge. rewrite Gne in Hge by lia. apply (Hpre i e); auto. }
+        exists es', len'. split; [exact Hrun|]. split; [lia|]. split; [congruence|].
+        split; [rewrite H0'; apply Gne; lia|]. split; [exact Hok'|].
+        intros e. rewrite Hmem'. split.
+        * intros ((i & Hi & Hge) & Hne). split; [|exact Hne].
+          destruct (Nat.eq_dec i ci) as [->|Hic].
+          -- rewrite Gci in Hge. inversion Hge; subst e. exists (len - 1). split; [lia|exact Hel].
+          -- rewrite Gne in Hge by auto. exists i. split; [lia|exact Hge].
+        * intros ((i & Hi & Hge) & Hne). split; [|exact Hne].
+          destruct (Nat.eq_dec i ci) as [->|Hic].
+          -- rewrite He0 in Hge. inversion Hge; subst e. contradiction.
+          -- destruct (Nat.eq_dec i (len - 1)) as [->|Hil].
+             ++ exists ci. split; [lia|]. rewrite Gci. congruence.
+             ++ exists i. split; [lia|]. rewrite Gne by auto. exact Hge.
+      + destruct (IH es len (S ci) ltac:(lia) ltac:(lia) Hlen Hok) as (es' & len' & Hrun & Hrest).
+        { intros i e Hi Hge. destruct (Nat.eq_dec i ci) as [->|Hic].
+          - rewrite He0 in Hge. inversion Hge; subst e. intros E. apply hd_eqb_spec in E. congruence.
+          - apply (Hpre i e); auto. lia. }
+        exists es', len'. split; [exact Hrun|exact Hrest].
+  Qed.
+
+  Lemma heapify_spec : forall idx es len, 2 * idx < len + 1 -> idx < len -> len < length es ->
+    (forall i, 1 <= i < len -> cell_ok es i) -> ordered_from (S idx) es len ->
+    exists es', heapify idx es len = Some es' /\ length es' = length es /\ cget es' 0 = cget es 0 /\
+      (forall i, 1 <= i < len -> cell_ok es' i) /\ ordered_from 1 es' len /\
+      (forall e, In_cells es' len e <-> In_cells es len e).
+  Proof.
+    induction idx as [|i IH]; intros es len H2 Hil Hlen Hok Hord.
+    - exists es. cbn [Heap.heapify]. split; [reflexivity|]. split; [reflexivity|]. split; [reflexivity|].
+      split; [exact Hok|]. split; [exact Hord|]. intros e; reflexivity.
+    - cbn [Heap.heapify].
+      destruct (Hok (S i) ltac:(lia)) as (e0 & He0 & Hg0 & Hhd0).
+      rewrite He0. cbn [obind].
+      destruct (cset_some es len e0 Hlen) as (es1 & Hset). rewrite Hset. cbn [obind].
+      destruct (cset_inv _ _ _ _ Hset) as (_ & Hlen1 & G).
+      assert (Gl : cget es1 len = Some e0) by (rewrite G, Nat.eqb_refl; reflexivity).
+      assert (Gne : forall j, j <> len -> cget es1 j = cget es j).
+      { intros j Hj. rewrite G. destruct (Nat.eqb_spec j len); [contradiction|reflexivity]. }
+      assert (B : BD len (S i) e0 es1 (S i)).
+      { constructor.
+        - lia.
+        - lia.
+        - exact Gl.
+        - intros j Hj. unfold cell_ok. rewrite Gne by lia. apply Hok; auto.
+        - intros j e p Hj Hlo Hne Hne2 Hge Hgp.
+          pose proof (div2_lt j ltac:(lia)).
+          rewrite Gne in Hge, Hgp by lia. apply (Hord j e p); auto. lia.
+        - left; reflexivity.
+        - left; reflexivity. }
+      destruct (bubble_down_spec len (S i) e0 Hg0 Hhd0 len es1 (S i) ltac:(lia) B)
+        as (es2 & Hrun & Hlen2 & Hx2 & Hfr2 & Hok2 & Hord2 & Hmem2).
+      rewrite Hrun. cbn [obind].
+      destruct (IH es2 len ltac:(lia) ltac:(lia) ltac:(lia) Hok2 Hord2)
+        as (es' & Hrun' & Hlen' & H0' & Hok' & Hord' & Hmem').
+      exists es'. split; [exact Hrun'|]. split; [congruence|].
+      split; [rewrite H0', Hfr2 by lia; apply Gne; lia|].
+      split; [exact Hok'|]. split; [exact Hord'|].
+      intros e. rewrite Hmem', Hmem2. split.
+      + intros [->|(j & Hj & Hne & Hge)].
+        * exists (S i). split; [lia|exact He0].
+        * rewrite Gne in Hge by lia. exists j; auto.
+      + intros (j & Hj & Hge). destruct (Nat.eq_dec j (S i)) as [->|Hji].
+        * left. congruence.
+        * right. exists j. rewrite Gne by lia. auto.
+  Qed.
+
+  Theorem delete_events_spec : forall h hd, heap_inv h ->
+    exists h', delete_events h hd = Some h' /\ heap_inv h' /\ hsize h' = hsize h /\
+      (forall e, In_heap h' e <-> In_heap h e /\ ehd e <> Some hd).
+  Proof.
+    intros [es len size] hd Hinv. unfold heap_inv in Hinv. cbn [entries hlen hsize] in Hinv.
+    unfold Heap.delete_events. cbn [entries hlen hsize].
+    destruct Hinv as (Hl & [(H0 & Hs0)|(H1 & H2 & H3 & H4 & H5)]).
+    - subst len. cbn [Heap.del_loop]. change (1 <? 0) with false. cbv iota. cbn [obind].
+      change (0 / 2) with 0. cbn [Heap.heapify obind].
+      eexists. split; [reflexivity|]. split.
+      { split; cbn [entries hlen hsize]; auto. }
+      split; [reflexivity|]. intros e. unfold In_heap, In_cells. cbn [entries hlen]. split.
+      + intros (i & Hi & _); lia.
+      + intros ((i & Hi & _) & _); lia.
+    - destruct (del_loop_spec hd len es len 1 ltac:(lia) ltac:(lia) ltac:(lia) H4)
+        as (es1 & len1 & Hrun & Hl1 & Hlen1 & H01 & Hok1 & Hmem1).
+      { intros i e Hi; lia. }
+      rewrite Hrun. cbn [obind].
+      assert (Hdiv : 2 * (len1 / 2) <= len1).
+      { pose proof (Nat.div_mod len1 2 ltac:(lia)). lia. }
+      assert (Hdl : len1 / 2 < len1) by (apply div2_lt; lia).
+      destruct (heapify_spec (len1 / 2) es1 len1 ltac:(lia) Hdl ltac:(lia) Hok1)
+        as (es2 & Hrun2 & Hlen2 & H02 & Hok2 & Hord2 & Hmem2).
+      { intros i e p Hi Hlo Hge Hgp.
+        pose proof (Nat.div_mod i 2 ltac:(lia)) as Di.
+        pose proof (Nat.div_mod len1 2 ltac:(lia)) as D.
+        pose proof (Nat.mod_upper_bound len1 2 ltac:(lia)). lia. }
+      rewrite Hrun2. cbn [obind].
+      eexists. split; [reflexivity|].
+      assert (H0f : cget es2 0 = Some sentinel) by congruence.
+      split.
+      { split; cbn [entries hlen hsize]; [congruence|]. right.
+        split; [lia|]. split; [lia|]. split; [exact H0f|]. split; [exact Hok2|].
+        apply ordered_from_0; auto. }
+      split; [reflexivity|].
+      intros e. unfold In_heap. cbn [entries hlen]. rewrite Hmem2, Hmem1. reflexivity.
+  Qed.
+
+  (** ** entry *)
+  Lemma entry_at_spec : forall h index, heap_inv h ->
+    (index + 1 < hlen h /\ exists e, entry_at bot h index = Some e /\ cget (entries h) (index + 1) = Some e /\
+                                     ehd e <> None /\ good (ekey e)) \/
+    (hlen h <= index + 1 /\ entry_at bot h index = Some sentinel).
+  Proof.
+    intros h index Hinv. unfold Heap.entry_at.
+    destruct (Nat.ltb_spec (index + 1) (hlen h)) as [L|L]; [left|right; auto].
+    split; [exact L|].
+    destruct Hinv as (_ & [(H0 & _)|(H1 & H2 & H3 & H4 & H5)]); [lia|].
+    destruct (H4 (index + 1) ltac:(lia)) as (e & He & Hg & Hhd). exists e. auto.
+  Qed.
+
+  Lemma empty_heap_inv : heap_inv (@empty_heap K).
+  Proof. split; cbn; auto. Qed.
+
 End HeapProofs.
